@@ -149,7 +149,7 @@ impl J {
 
 // ------------------------------------------------------------------ reference reader: JSON-LD 1.1 API, "Deserialize JSON-LD to RDF",
 // restricted to the expanded/flattened shape the serializer emits (no context, no nested node objects); written from the specification
-struct RefRdf { out: Vec<Q>, fresh: usize, dir: u8 }
+struct RefRdf { out: Vec<Q>, fresh: usize, dir: u8, quirks: bool }
 impl RefRdf {
     fn id_term(s: &str) -> ST { if let Some(l) = s.strip_prefix("_:") { bnode(l) } else { iri(s) } }
     fn fresh(&mut self) -> ST { self.fresh += 1; bnode(&format!("L{}", self.fresh)) }
@@ -190,6 +190,8 @@ impl RefRdf {
             if let Some(d) = dirn { if d != "ltr" && d != "rtl" { return Err(format!("invalid base direction {d:?}")); } }
             if ty.is_some() && (lang.is_some() || dirn.is_some()) { return Err("value object with both @type and @language/@direction".into()); }
             return Ok(match (dirn, self.dir) {
+                (Some(d), 1) if self.quirks && lang.is_none() => lit_dt(lex, &format!("{I18N}{d}")),
+                (Some(_), 2) if self.quirks => self.fresh(),
                 (Some(d), 1) => lit_dt(lex, &format!("{I18N}{}_{d}", lang.unwrap_or("").to_ascii_lowercase())),
                 (Some(d), 2) => { let b = self.fresh(); self.out.push(([b.clone(), rdf("value"), plain(lex)], g.clone())); if let Some(l) = lang { self.out.push(([b.clone(), rdf("language"), plain(&l.to_ascii_lowercase())], g.clone())); } self.out.push(([b.clone(), rdf("direction"), plain(d)], g.clone())); b }
                 _ => match (lang, ty) { (Some(l), _) => lit_lang(lex, l), (None, Some(t)) => lit_dt(lex, t), (None, None) => plain(lex) },
@@ -199,8 +201,11 @@ impl RefRdf {
         Err(format!("unrecognised object {item:?}"))
     }
 }
-fn reference_to_rdf(doc: &J, dir: u8) -> Result<Vec<Q>, String> {
-    let mut r = RefRdf { out: vec![], fresh: 0, dir };
+/// `quirks`: do what json-ld-core 0.15.1 is known to do differently from the specification when
+/// rdfDirection is set (third-party code, outside /repo): no rdf:value/rdf:language/rdf:direction
+/// triples for compound literals, and no '_' in the i18n datatype when there is no language.
+fn reference_to_rdf(doc: &J, dir: u8, quirks: bool) -> Result<Vec<Q>, String> {
+    let mut r = RefRdf { out: vec![], fresh: 0, dir, quirks };
     for n in doc.arr()? { r.node(n, &None, true)?; }
     Ok(r.out)
 }
@@ -393,14 +398,6 @@ fn gen_case(r: &mut Rng, single: bool) -> (Vec<Q>, Vec<String>, Opts) {
     (dedup(&q), tags, opts)
 }
 
-/// what json-ld-core 0.15.1 is known to do differently from the specification when rdfDirection is
-/// set (third-party code, outside /repo): no rdf:value/rdf:language/rdf:direction triples for
-/// compound literals, and no '_' in the i18n datatype when there is no language.
-fn known_parser_quirks(q: &[Q], dir: u8) -> Vec<Q> {
-    q.iter().filter(|q| !(dir == 2 && matches!(&q.0[0], SimpleTerm::BlankNode(b) if b.as_str().starts_with('L')) && [rdf("value"), rdf("language"), rdf("direction")].contains(&q.0[1])))
-        .map(|q| { let mut q = q.clone(); if let SimpleTerm::LiteralDatatype(l, d) = &q.0[2] { if let Some(r) = d.as_str().strip_prefix(&format!("{I18N}_")) { q.0[2] = lit_dt(l, &format!("{I18N}{r}")); } } q }).collect()
-}
-
 /// the property oracle: Some(description) when the round trip fails.  Two readers are applied to the
 /// emitted document: sophia's JsonLdParser (the property as stated) and the reference reader above.
 fn iso(expected: &Vec<Q>, back: &Vec<Q>) -> bool { isomorphic_datasets(expected, back).unwrap_or(false) }
@@ -408,7 +405,7 @@ fn oracle(quads: &[Q], o: &Opts, ser: &Result<String, String>) -> Option<String>
     let expected: Vec<Q> = quads.iter().filter(|q| expressible(q)).cloned().collect();
     let txt = match ser { Ok(t) => t, Err(e) => return Some(format!("SERIALIZER FAILS: {e}")) };
     let flat = txt.split_whitespace().collect::<Vec<_>>().join(" ");
-    let reference = read_json(txt).and_then(|j| reference_to_rdf(&j, o.dir));
+    let reference = read_json(txt).and_then(|j| reference_to_rdf(&j, o.dir, false));
     let ref_back = match &reference {
         Err(e) => return Some(format!("SERIALIZER OUTPUT INVALID (reference reader): {e}; document: {flat}")),
         Ok(back) => dedup(back),
@@ -417,7 +414,7 @@ fn oracle(quads: &[Q], o: &Opts, ser: &Result<String, String>) -> Option<String>
     match parse_back(txt, o).map(|b| dedup(&b)) {
         Err(e) => Some(format!("PARSER REJECTS a document the reference reader round-trips: {e}; document: {flat}")),
         Ok(back) if !iso(&expected, &back) => {
-            let quirk = dedup(&known_parser_quirks(reference.as_ref().unwrap(), o.dir));
+            let quirk = dedup(&read_json(txt).and_then(|j| reference_to_rdf(&j, o.dir, true)).unwrap_or_default());
             if o.dir != 0 && iso(&quirk, &back) { Some(format!("PARSER (json-ld-core 0.15.1, rdfDirection={}) DIVERGES from the specification in the known way: parsed back {} quads [{}] instead of {}; document: {flat}", if o.dir == 1 { "i18n-datatype: no '_' before the direction when there is no language" } else { "compound-literal: no rdf:value/rdf:direction/rdf:language triples" }, back.len(), show_ds(&back), expected.len())) }
             else { Some(format!("PARSER DIVERGES from the reference reader: parsed back {} quads [{}] instead of {}; document: {flat}", back.len(), show_ds(&back), expected.len())) }
         }
@@ -452,7 +449,7 @@ fn canon_obj(j: &J) -> String { canon_json(j) }
 /// value object of each literal of the dataset, obtained from the implementation itself on a one-quad dataset
 fn literal_objects(quads: &[Q], o: &Opts, i: &mut Intern) -> Vec<(String, u64)> {
     let mut out = vec![]; let mut seen = BTreeSet::new();
-    for q in quads { if !expressible(q) { continue; } let l = &q.0[2]; if !matches!(l, SimpleTerm::LiteralDatatype(..) | SimpleTerm::LiteralLanguage(..)) || !seen.insert(key_t(l)) { continue; }
+    for q in quads { if !expressible(q) { continue; } let l = &q.0[2]; if !matches!(l, SimpleTerm::LiteralDatatype(..) | SimpleTerm::LiteralLanguage(..)) || !seen.insert(show_t(l)) { continue; }
         let one: Vec<Q> = vec![([ex("s"), ex("p"), l.clone()], None)];
         if let Ok(txt) = serialise(&one, o) { if let Ok(j) = read_json(&txt) { if let Some(v) = j.arr().ok().and_then(|a| a.first()).and_then(|n| n.get("http://e/p")).and_then(|v| v.arr().ok()).and_then(|a| a.first()) { out.push((canon_obj(v), i.id(l))); } } } }
     out
